@@ -1,4 +1,4 @@
-import Okane.Lemmas.Literal
+import Okane.Lemmas.LiteralSpec
 /-!
 # C07 — numeric literals mean exactly what is written
 
@@ -100,10 +100,48 @@ theorem C07_closed_form (s : List Char) : acc (scan s) = closedForm s := by
       simp only [Bool.false_eq_true, if_false]
       exact run_body false 0 (c :: cs) (by intro _ t h; simp at h; exact hc h.1)
 
-/-! ## Full-strength statements against `Spec/Literal.lean` (kept visible) -/
+/-! ## The closed form is the specification -/
 
-def litDec (s : List Char) : PDec :=
-  { neg := Spec.isNegative s && Spec.litMant s != 0, mant := Spec.litMant s, scale := Spec.litScale s, fmt := Spec.grouping s }
+/-- the closed form accepts exactly the well-formed, representable literals and returns the decimal as written -/
+theorem closedForm_eq_spec (s : List Char) :
+    closedForm s = if Spec.WellFormedLiteral s = true ∧ Spec.Representable s = true then some (litDec s) else none := by
+  unfold closedForm
+  rw [bodySpec_eq_spec, wf_eq_bWF, rep_eq_bRep, litDec_eq]
+
+/-- **C07_scan_spec** (the whole property in one equation): for every string, `from_str` accepts iff the string is a
+well-formed literal within rust_decimal's range, and then returns exactly the sign, mantissa, scale and grouping
+style that are written (`litDec`); otherwise it returns no value. -/
+theorem C07_scan_spec (s : List Char) :
+    acc (scan s) = if Spec.WellFormedLiteral s = true ∧ Spec.Representable s = true then some (litDec s) else none := by
+  rw [C07_closed_form, closedForm_eq_spec]
+
+theorem scan_ok_iff (s : List Char) (d : PDec) :
+    scan s = .ok d ↔ (Spec.WellFormedLiteral s = true ∧ Spec.Representable s = true) ∧ d = litDec s := by
+  have h := C07_scan_spec s
+  constructor
+  · intro hd
+    rw [hd, acc_ok] at h
+    by_cases hw : Spec.WellFormedLiteral s = true ∧ Spec.Representable s = true
+    · rw [if_pos hw] at h; exact ⟨hw, Option.some.inj h⟩
+    · rw [if_neg hw] at h; exact absurd h (by simp)
+  · intro ⟨hw, hd⟩
+    rw [if_pos hw] at h
+    rcases C07_total s with ⟨d', hd'⟩ | ⟨e, he⟩
+    · rw [hd', acc_ok] at h; rw [hd', hd, Option.some.inj h]
+    · rw [he] at h; simp [acc] at h
+
+/-- the value of the decimal as written is the number written (a zero has no sign) -/
+theorem litDec_toRat (s : List Char) : (litDec s).toRat = Spec.litValue s := by
+  unfold PDec.toRat Spec.litValue litDec
+  dsimp only
+  by_cases hn : Spec.isNegative s = true
+  · by_cases hm : Spec.litMant s = 0
+    · simp only [hn, hm, Bool.true_and, bne_self_eq_false, Bool.false_eq_true, if_false, if_true]
+      grind
+    · simp [hn, hm]
+  · simp [hn]
+
+/-! ## Full-strength statements against `Spec/Literal.lean`, and their proofs -/
 
 /-- accepted ⇒ well formed, and value / decimal places / grouping exactly as written -/
 def C07_sound_stmt : Prop := ∀ s d, scan s = .ok d →
@@ -117,6 +155,42 @@ def C07_reject_stmt : Prop := ∀ s, ¬ (Spec.WellFormedLiteral s = true ∧ Spe
 def C07_print_stmt : Prop := ∀ s d, scan s = .ok d →
   ∃ d', scan (printPDec d) = .ok d' ∧ d'.neg = d.neg ∧ d'.mant = d.mant ∧ d'.scale = d.scale ∧
     (d.mant / 10 ^ d.scale ≥ 1000 → d'.fmt = d.fmt)
+
+/-- **C07_sound**: whatever `from_str` accepts is a well-formed literal within range, and the decimal it returns has
+exactly the value, the number of decimal places and the grouping style that are written. -/
+theorem C07_sound : C07_sound_stmt := by
+  intro s d h
+  obtain ⟨⟨hw, hr⟩, hd⟩ := (scan_ok_iff s d).mp h
+  subst hd
+  exact ⟨hw, hr, litDec_toRat s, rfl, rfl⟩
+
+/-- sharper form of soundness: sign and mantissa too (a zero is never negative) -/
+theorem C07_sound_fields (s : List Char) (d : PDec) (h : scan s = .ok d) :
+    d.mant = Spec.litMant s ∧ d.neg = (Spec.isNegative s && Spec.litMant s != 0) ∧ d.scale = Spec.litScale s ∧
+    d.fmt = Spec.grouping s ∧ d.mant < 2 ^ 96 ∧ d.scale ≤ 28 := by
+  obtain ⟨⟨_, hr⟩, hd⟩ := (scan_ok_iff s d).mp h
+  subst hd
+  simp only [Spec.Representable, Bool.and_eq_true, decide_eq_true_eq] at hr
+  exact ⟨rfl, rfl, rfl, rfl, hr.2, hr.1⟩
+
+/-- **C07_complete**: every well-formed literal within range is accepted. -/
+theorem C07_complete : C07_complete_stmt := by
+  intro s hw hr
+  exact ⟨litDec s, (scan_ok_iff s _).mpr ⟨⟨hw, hr⟩, rfl⟩⟩
+
+/-- **C07_reject**: everything else — malformed, too large, too precise — is an error value (not a value, not a crash). -/
+theorem C07_reject : C07_reject_stmt := by
+  intro s h
+  apply C07_reject_is_error
+  rw [C07_scan_spec, if_neg h]
+
+example : Spec.WellFormedLiteral "-1,234.50".toList = true ∧ Spec.Representable "-1,234.50".toList = true ∧
+    litDec "-1,234.50".toList = ⟨true, 123450, 2, some .comma3dot⟩ := by decide +kernel
+example : ¬ (Spec.WellFormedLiteral "12,50".toList = true ∧ Spec.Representable "12,50".toList = true) := by decide +kernel
+example : Spec.WellFormedLiteral ('1' :: List.replicate 39 '0') = true ∧
+    Spec.Representable ('1' :: List.replicate 39 '0') = false := by decide +kernel
+example : Spec.WellFormedLiteral "-0.00".toList = true ∧ litDec "-0.00".toList = ⟨false, 0, 2, none⟩ := by decide +kernel
+
 /-- the naive form of the print law (`scan (print d) = d`) is FALSE: a grouped literal below 1000 (`0,123`) prints
 without a comma and re-reads without the grouping tag. -/
 def C07_print_naive : Prop := ∀ s d, scan s = .ok d → scan (printPDec d) = .ok d
